@@ -183,7 +183,8 @@ class System:
     def canon(self):
         p = self.fr._prh
         fs = tuple((lp.logPass.frameSet.frames.shape if lp.logPass.frameSet is not None else None) for lp in self.passes)
-        return fs + (p.stream.tell(), p._ldIndex, p._ldTell, p._mustReadHead, p.isEOF, p.prAttr & 3, p.ldLen)
+        hidden = tuple(bfs.generic_state(lp.logPass._plan, depth=1) for lp in self.passes)
+        return fs + (p.stream.tell(), p._ldIndex, p._ldTell, p._mustReadHead, p.isEOF, p.prAttr & 3, p.ldLen, hidden)
 
 
 def check_index(system):
@@ -428,7 +429,7 @@ def gen_I(tier):
 
 
 def gen_H(tier):
-    cfg = [chan('DEPT', 68), chan('GR  ', 73), chan('SP  ', 79, 2, 1)]
+    cfg = [chan('DEPT', 68), chan('GR  ', 73), chan('SP  ', 68), chan('CALI', 68)]
     cfg2 = [chan('DEPT', 68), chan('CALI', 49)]
     for indirect in (0, 68):
         for layout in ({'maxlen': 65535}, {'maxlen': 48, 'tif': 'normal'}):
@@ -439,10 +440,12 @@ def gen_H(tier):
 
 
 def h_menu():
+    """Loads whose channel lists share first / last / count but differ in between ([1,3] vs [2,3] -> with the X channel
+    [0,1,3] vs [0,2,3]) are included: anything remembered from one load and keyed too coarsely shows in the next."""
     ops = []
     for k, n in ((0, 6), (1, 3)):
         for sl in (None, [0, 1, 1], [0, n, 2], [n - 1, n, 1], [1, n, 1]):
-            for cs in (None, [1], [0]):
+            for cs in ((None, [1], [0], [1, 3], [2, 3], [0, 2, 3]) if k == 0 else (None, [1], [0])):
                 ops.append(['load', k, sl, cs])
     return ops
 
